@@ -45,7 +45,8 @@ BENIGN = {"unused_variable", "combinational_loop", "missing_reset_statement", "m
 KINDS = ["multiple_assignment", "uncovered_branch", "unassign_variable"]
 
 
-def model_eval(designs, name="c15"):
+def model_eval(designs, name=None):
+    name = name or "c15_%d" % os.getpid()    # unique: runs for several trees may overlap
     pre = "From Coq Require Import NArith List.\nImport ListNotations.\nFrom VV Require Import Analysis.AssignMaskModel.\nOpen Scope N_scope.\n"
     vals = C.coq_eval_sharded(name, pre, [d.coq() for d in designs], lambda l: "map design_verdicts %s" % l, shard=40)
     out = []
@@ -132,7 +133,7 @@ def shrink(binary, d, key):
         try:
             c.veryl()
             im = G.analyze(binary, [c.text])[0]
-            ver = model_eval([c], name="c15_shrink")[0]
+            ver = model_eval([c], name="c15_shrink_%d" % os.getpid())[0]
         except Exception:
             return False
         return any(k == key for k, _ in judge(c, im, ver))
@@ -287,7 +288,7 @@ def run(tier, seed, replay):
             pass
         im2 = G.analyze(binary, [d2.text])[0]
         try:
-            ver2 = model_eval([d2], name="c15_shrink")[0]
+            ver2 = model_eval([d2], name="c15_shrink_%d" % os.getpid())[0]
         except Exception:
             ver2 = ver
         ws = [x for kk, x in judge(d2, im2, ver2) if kk == k]
